@@ -45,6 +45,7 @@ type WrittenTable struct {
 	Logs     []Log
 	Empty    bool
 	Rejected bool // the closure or writer returned an error
+	Bad      string // the badness actually applied to this table ("" none)
 }
 
 // CallRec is the bookkeeping of one API call (op instance).
